@@ -256,7 +256,7 @@ def _compare_conditions():
     def nth_compare(text):
         def pick(fn):
             for n in ast.walk(fn):
-                if isinstance(n,(ast.Compare,ast.BoolOp)) and ast.unparse(n)==text: return n
+                if isinstance(n,(ast.Compare,ast.BoolOp,ast.BinOp,ast.Call,ast.Subscript)) and ast.unparse(n)==text: return n
             return None
         return pick
     out.append(t_expr(S,"_get_nearest_block","nearest_block_is_later",[("bs","Z"),("he","Z")],"bool",nth_compare("block.start >= header.end"),cond=True,aliases={"block.start":"bs","header.end":"he"}))
@@ -273,6 +273,20 @@ def _compare_conditions():
     out.append(t_expr(MA,"find_all","find_all_after_last",[("ps","Z"),("me","Z")],"bool",nth_compare("pattern.start >= matches[-1].end"),cond=True,aliases={"pattern.start":"ps","matches[-1].end":"me"}))
     PA="codelimit/common/gsm/Pattern.py"
     out.append(t_expr(PA,"Pattern.consume","group_is_open",[("depth","Z")],"bool",nth_compare("getattr(self._predicate(t), 'depth', 0) > 0"),cond=True,aliases={"getattr(self._predicate(t), 'depth', 0)":"depth"}))
+    # ---- second batch: cache reuse, lexer arithmetic, brace matching
+    SC="codelimit/common/Scanner.py"
+    out.append(t_expr(SC,"_scan_file","reuse_cached_entry",[("has_entry","bool"),("cached_ck","Z"),("checksum","Z")],"bool",
+        nth_compare("cached_entry and cached_entry.checksum() == checksum"),cond=True,aliases={"cached_entry":"has_entry","cached_entry.checksum()":"cached_ck"}))
+    CM="codelimit/commands/scan.py"
+    L="codelimit/common/lexer_utils.py"
+    out.append(t_expr(L,"lex","lex_line_number",[("newline_index","Z")],"Z",nth_compare("newline_index + 1")))
+    out.append(t_expr(L,"lex","lex_column",[("off","Z"),("line_start","Z")],"Z",nth_compare("t[0] - line_start + 1"),aliases={"t[0]":"off"}))
+    out.append(t_expr(L,"lex","lex_next_line_start",[("nl","Z")],"Z",nth_compare("indices[newline_index] + 1"),aliases={"indices[newline_index]":"nl"}))
+    out.append(t_expr(L,"lex","lex_single_line_column",[("off","Z")],"Z",nth_compare("t[0] + 1"),aliases={"t[0]":"off"}))
+    out.append(t_expr(L,"lex","lex_trim_length",[("n","Z"),("i","Z")],"Z",nth_compare("max(len(code) - i, 0)"),aliases={"len(code)":"n"}))
+    TU="codelimit/common/token_utils.py"
+    out.append(t_expr(TU,"get_balanced_symbol_token_ranges","balanced_has_open",[("n_open","Z")],"bool",nth_compare("len(start_indices) > 0"),cond=True,aliases={"len(start_indices)":"n_open"}))
+    out.append(t_expr(TU,"get_balanced_symbol_token_ranges","balanced_range_end",[("index","Z")],"Z",nth_compare("index + 1")))
     return "\n".join(out)
 
 
